@@ -22,7 +22,9 @@ fn main() {
                         if let Some((k, v)) = kv.split_once('=') { cfg.insert(k.into(), v.into()); }
                     }
                     ops.remove(0);
-                    writeln!(out, "{first} => {{\"ret\":\"ok\",\"cmds\":[]}}").unwrap();
+                    let mut kvs: Vec<String> = cfg.iter().filter(|(k, _)| k.as_str() != "profile").map(|(k, v)| format!("{k}={v}")).collect();
+                    kvs.sort();
+                    writeln!(out, "config {} => {{\"ret\":\"ok\",\"cmds\":[]}}", kvs.join(" ")).unwrap();
                 }
             }
             let mut s = sys::Sys::new(&id, &cfg);
@@ -47,7 +49,9 @@ fn main() {
                 cfg.insert("deagg".into(), r2.range(1, 3).to_string());
             }
             let mut s = sys::Sys::new(&id, &cfg);
-            let cfgline = format!("config agg={} deagg={}", cfg["agg"], cfg["deagg"]);
+            let mut kvs: Vec<String> = cfg.iter().filter(|(k, _)| k.as_str() != "profile").map(|(k, v)| format!("{k}={v}")).collect();
+            kvs.sort();
+            let cfgline = format!("config {}", kvs.join(" "));
             writeln!(out, "{cfgline} => {{\"ret\":\"ok\",\"cmds\":[]}}").unwrap();
             let mut g = gene::Gen::new(r2, &profile);
             let mut ops = g.setup();
